@@ -390,3 +390,130 @@ func (v *verifier) builtinFieldScan() []*Obligation {
 	}
 	return []*Obligation{{Name: "exec.exprContext/builtin-table-field", Fn: "exec.exprContext", Kind: "structural", Goal: goal, Src: src, Props: []string{"C11", "C08"}, tr: emptyTrans(v)}}
 }
+
+// builtinCallObligations: A-FN (the assumed contract of calls through a Function value) is justified for the builtins:
+// for every entry of exec.builtinFunctions (name, arity, Go function) the state execFunctionCall calls it in - a valid
+// context, well-formed argument values, and the arity the overload table selected - implies the function's own
+// precondition, and the function's own postcondition implies the checkable part of A-FN (a non-nil, well-formed value
+// when no error is reported; nothing pre-existing written).  Each entry is verified as if it were a function whose
+// body is `return builtin(context, args...)`.
+func (v *verifier) builtinCallObligations() ([]*Obligation, []string) {
+	var out []*Obligation
+	var errs []string
+	table, terrs := v.builtinTable()
+	errs = append(errs, terrs...)
+	pre, err1 := parseSpec("context != nil && okargs(args) && context.result != nil && wf(context.result) && resok(context.result) && (forall i Int :: {args[i]} 0 <= i && i < len(args) ==> resok(args[i]))")
+	post, err2 := parseSpec("err == nil ==> r != nil && wf(r) && resok(r)")
+	if err1 != nil || err2 != nil {
+		return nil, []string{fmt.Sprint("builtin obligations: ", err1, err2)}
+	}
+	old := v.curPkg
+	v.curPkg = xselPath + "/exec"
+	defer func() { v.curPkg = old }()
+	var names []string
+	for n := range table {
+		names = append(names, n)
+	}
+	sort.Strings(names)
+	for _, n := range names {
+		var ars []string
+		for a := range table[n] {
+			ars = append(ars, a)
+		}
+		sort.Strings(ars)
+		for _, ar := range ars {
+			hkey := table[n][ar]
+			hc := v.contracts[hkey]
+			var fn *ssa.Function
+			for _, f := range v.funcs {
+				if fnKey(f) == hkey {
+					fn = f
+				}
+			}
+			name := fmt.Sprintf("call[%s/%s]", n, ar)
+			if hc == nil || fn == nil {
+				out = append(out, &Obligation{Name: "exec.builtinFunctions/" + name, Fn: "exec.builtinFunctions", Kind: "dispatch", Goal: "false",
+					Src: fmt.Sprintf("builtin %s (%s) has no contract", n, hkey), Props: []string{"C11"}, tr: emptyTrans(v)})
+				continue
+			}
+			var last *fnTrans
+			for pass := 0; pass < 2; pass++ {
+				g := &Contract{Pkg: xselPath + "/exec", Name: "builtinFunctions", Params: []string{"context", "args"}, Results: []string{"r", "err"}, Uses: []string{"sem"}, Loops: map[int]*LoopSpec{}, Hints: map[string][]Clause{}}
+				tr := newFnTrans(v, nil, g, last)
+				if pass == 0 {
+					tr = newFnTrans(v, nil, g, nil)
+				}
+				tr.key = "exec.builtinFunctions"
+				tr.dry = pass == 0
+				tr.uses["sem"] = true
+				tr.uses["gentables"] = true
+				tr.preludeHeaps(append([]string{"sem"}, hc.Uses...))
+				for _, m := range tr.preMaps {
+					tr.touchHeap(m, tr.preInfo[m].elem, tr.preInfo[m].isArr)
+				}
+				tr.alloc = "alloc0"
+				sig := fn.Signature
+				var args []Term
+				for i := 0; i < sig.Params().Len() && i < 2; i++ {
+					s, err := v.sortOf(sig.Params().At(i).Type())
+					if err != nil {
+						tr.errorf("%v", err)
+						continue
+					}
+					pn := "p_" + g.Params[i]
+					tr.declare(pn, s)
+					tm := T(pn, s)
+					tr.params[g.Params[i]] = tm
+					tr.hyp(tr.wf(tm, "alloc0"))
+					args = append(args, tm)
+				}
+				tr.entryEnv = tr.env()
+				if tm, err := tr.spec(pre, tr.entryEnv); err == nil {
+					tr.hyp(tm.S)
+				} else {
+					tr.errorf("builtin %s: %v", n, err)
+				}
+				if ar != "*" && len(args) == 2 {
+					tr.hyp(app("=", slLen(args[1].S), ar))
+				}
+				cov := tr.oblige("cover", name+".cover", "false", "", token.NoPos)
+				cov.Cover = true
+				rts := tr.applyContractSig(hc, hkey, args, sig, "v_call", token.NoPos, func() {})
+				env := tr.env()
+				env.oldHeap = map[string]string{}
+				for i, rn := range g.Results {
+					if i < len(rts) {
+						env.vars[rn] = rts[i]
+					}
+				}
+				if tm, err := tr.spec(post, env); err == nil {
+					tr.oblige("dispatch", name+".post[@well-formed-value-unless-error]", tm.S, fmt.Sprintf("contract of %s entails the checkable part of A-FN", hkey), token.NoPos)
+				} else {
+					tr.errorf("builtin %s: %v", n, err)
+				}
+				for _, m := range tr.mapOrder {
+					hcur := tr.curHeap(m)
+					if hcur == tr.heapEntry(m) {
+						continue
+					}
+					tr.oblige("frame", fmt.Sprintf("%s.frame[%s]", name, m), tr.frameFormula(m, tr.heapEntry(m), hcur, "alloc0", nil), "", token.NoPos)
+				}
+				last = tr
+			}
+			for _, e := range last.errs {
+				errs = append(errs, name+": "+e)
+			}
+			for _, o := range last.obls {
+				o.Props = append(append([]string{}, hc.Props...), "C11")
+				if !strings.Contains(o.Name, "call[") {
+					o.Name = "exec.builtinFunctions/" + name + "." + strings.TrimPrefix(o.Name, "exec.builtinFunctions/")
+				} else if !strings.HasPrefix(o.Name, "exec.builtinFunctions/") {
+					o.Name = "exec.builtinFunctions/" + o.Name
+				}
+				o.Kind = "dispatch"
+			}
+			out = append(out, last.obls...)
+		}
+	}
+	return out, errs
+}
